@@ -17,16 +17,18 @@
 package verifsync
 
 import (
+	"fmt"
 	"runtime"
+	"runtime/debug"
 	"sync"
 	"sync/atomic"
 	"syscall"
 )
 
 type (
-	Map       = sync.Map
-	Cond      = sync.Cond
-	Locker    = sync.Locker
+	Map    = sync.Map
+	Cond   = sync.Cond
+	Locker = sync.Locker
 )
 
 func NewCond(l Locker) *Cond { return sync.NewCond(l) }
@@ -347,14 +349,33 @@ func spawn(fn func()) {
 		return
 	}
 	if c == nil {
-		go fn()
+		go func() {
+			defer goroutinePanic()
+			fn()
+		}()
 		return
 	}
 	Foreign.Add(1)
 	go func() {
 		defer Foreign.Add(-1)
+		defer goroutinePanic()
 		fn()
 	}()
+}
+
+// OnGoroutinePanic, when set, is told about a panic in a goroutine that the library started itself and
+// that runs outside any explorer (such a panic would otherwise end the whole check process without a
+// verdict).  When it is not set the panic goes on.
+var OnGoroutinePanic func(msg, stack string)
+
+func goroutinePanic() {
+	if r := recover(); r != nil {
+		h := OnGoroutinePanic
+		if h == nil {
+			panic(r)
+		}
+		h(fmt.Sprint(r), string(debug.Stack()))
+	}
 }
 
 // Go0..Go6 replace the go statements of the library: `go f(a, b)` becomes Go2(f, a, b), which
